@@ -105,13 +105,44 @@ func (s *spyObj) MarshalLogObject(enc zapcore.ObjectEncoder) error {
 }
 
 type spySink struct {
-	id    int
-	rec   *recorder
-	inner zapcore.WriteSyncer // optional real destination
+	id      int
+	rec     *recorder
+	inner   zapcore.WriteSyncer // optional real destination
+	console bool                // lines are console-encoded: [name TAB] m [TAB {context}] NL
+}
+
+// parseLine: (logger name, field descriptors) of one emitted line; an unreadable line is reported as such.
+func (s *spySink) parseLine(p []byte) (name string, fs []string) {
+	defer func() {
+		if e := recover(); e != nil {
+			name, fs = "", []string{"!unreadable line " + strconv.Quote(string(p))}
+		}
+	}()
+	if !s.console {
+		return flattenLine(p)
+	}
+	cols := strings.Split(strings.TrimSuffix(string(p), "\n"), "\t")
+	ctx := ""
+	if last := cols[len(cols)-1]; strings.HasPrefix(last, "{") {
+		ctx, cols = last, cols[:len(cols)-1]
+	}
+	switch {
+	case len(cols) == 2 && cols[1] == "m":
+		name = cols[0]
+	case len(cols) == 1 && cols[0] == "m":
+	default:
+		panic("unexpected console columns")
+	}
+	if ctx != "" {
+		_, fs = flattenLine([]byte(ctx))
+	} else {
+		fs = []string{}
+	}
+	return name, fs
 }
 
 func (s *spySink) Write(p []byte) (int, error) {
-	name, fs := flattenLine(p)
+	name, fs := s.parseLine(p)
 	s.rec.add(fmt.Sprintf("w%d:%s|%s", s.id, name, strings.Join(fs, ",")))
 	if s.inner != nil {
 		return s.inner.Write(p)
@@ -230,6 +261,10 @@ type world struct {
 	// BETWEEN the core and the spy, so that the spy observes what actually reaches the destination
 	bufferOdd bool
 	buffered  []*zapcore.BufferedWriteSyncer
+	// consoleMod4: io leaves whose id ≡ 3 (mod 4) encode with the console encoder instead of the JSON encoder
+	consoleMod4 bool
+	// kept: every entry an observer recorded, with the description taken when it was drained (C07 re-checks them)
+	kept []keptEntry
 }
 
 func newWorld(atomics []int, cells []int) *world {
@@ -303,6 +338,11 @@ func (w *world) build(n *nodeJ) zapcore.Core {
 			if w.sinkFor != nil {
 				sink.inner = w.sinkFor(n.ID)
 			}
+			if w.consoleMod4 && n.ID%4 == 3 {
+				sink.console = true
+				return zapcore.NewCore(zapcore.NewConsoleEncoder(zapcore.EncoderConfig{MessageKey: "msg", NameKey: "logger", LineEnding: "\n",
+					EncodeName: zapcore.FullNameEncoder}), sink, w.enabler(n.En))
+			}
 			if w.bufferOdd && n.ID%2 == 1 {
 				b := &zapcore.BufferedWriteSyncer{WS: sink, Size: 2, FlushInterval: time.Hour}
 				w.buffered = append(w.buffered, b)
@@ -354,6 +394,23 @@ func (w *world) build(n *nodeJ) zapcore.Core {
 }
 
 // drainObs collects what the observer leaves recorded since the last drain: ["o<id>", "<logger>|<fields>"] sorted by id.
+type keptEntry struct {
+	leaf  int
+	entry observer.LoggedEntry
+	desc  string
+}
+
+// recheckKept: entries recorded earlier must still read the same (a later call must not overwrite them).
+func (w *world) recheckKept() (leaf int, was, now string, ok bool) {
+	for _, k := range w.kept {
+		d := k.entry.LoggerName + "|" + strings.Join(describeFields(k.entry.Context), ",")
+		if d != k.desc {
+			return k.leaf, k.desc, d, false
+		}
+	}
+	return 0, "", "", true
+}
+
 func (w *world) drainObs() [][]string {
 	ids := make([]int, 0, len(w.obs))
 	for id := range w.obs {
@@ -363,7 +420,9 @@ func (w *world) drainObs() [][]string {
 	out := [][]string{}
 	for _, id := range ids {
 		for _, e := range w.obs[id].TakeAll() {
-			out = append(out, []string{"o" + strconv.Itoa(id), e.LoggerName + "|" + strings.Join(describeFields(e.Context), ",")})
+			d := e.LoggerName + "|" + strings.Join(describeFields(e.Context), ",")
+			out = append(out, []string{"o" + strconv.Itoa(id), d})
+			w.kept = append(w.kept, keptEntry{leaf: id, entry: e, desc: d})
 		}
 	}
 	return out
